@@ -62,7 +62,7 @@ Inductive clog :=
   | KUndefined.
 
 Record copts := mk_copts
-  { co_tls : bool; co_inv : bool; co_chunk : bool; co_period : bool; co_port : str; co_cfg : ccfg }.
+  { co_tls : bool; co_inv : bool; co_chunk : bool; co_period : bool; co_reclose : bool; co_port : str; co_cfg : ccfg }.
 
 Inductive cevt :=
   | CeConnect (resolve_fails : bool) | CeConnected (e : errc) | CeHandshake (e : errc)
@@ -102,11 +102,19 @@ Section Client.
 
   Definition k_enable_reception (k : cl) : res := (s_read_pending k true, [KRead]).
 
+  (* the application's disconnected callback; with co_reclose it calls close() on the client from inside the
+     callback (not while the client is being destroyed).  The connection is already marked disconnected at
+     both call sites, so that close() only stops the timer and closes the (already closed) socket *)
+  Definition k_app_disconnected (destroying : bool) (k : cl) : res :=
+    if co_reclose o && negb destroying then
+      andthen (s_timer (s_period k false) false, [KDisconnected; KAppClose]) k_close
+    else (k, [KDisconnected]).
+
   (* ---- http_client::disconnected_handler ---- *)
   Definition k_disconnected (k : cl) : res :=
     if k_connected k then
-      andthen (k_close (s_connected k false))
-        (fun k1 => (if k_period k1 then s_timer k1 true else k1, [KDisconnected]))
+      andthen (andthen (k_close (s_connected k false)) (k_app_disconnected false))
+        (fun k1 => (if k_period k1 then s_timer k1 true else k1, []))
     else (k, []).
 
   (* ---- comms::connection ---- *)
@@ -210,8 +218,8 @@ Section Client.
     end.
 
   (* http_client::close() after the timer was stopped *)
-  Definition k_client_close (k : cl) : res :=
-    if k_connected k then andthen (k_close (s_connected k false)) (fun k1 => (k1, [KDisconnected]))
+  Definition k_client_close (destroying : bool) (k : cl) : res :=
+    if k_connected k then andthen (k_close (s_connected k false)) (k_app_disconnected destroying)
     else k_close k.
 
   Definition kstate (k : cl) : clog :=
@@ -270,8 +278,8 @@ Section Client.
     | CeSendChunk _ d x => k_send_buffers k 2 true (chunk_header_string (nlen d) x ++ d ++ CRLF)
     | CeLastChunk x t => k_send_buffers k 3 true (last_chunk_string x t)
     | CeDisconnect => andthen (k, [KAppDisconnect]) k_shutdown
-    | CeClose => andthen (s_timer (s_period k false) false, [KAppClose]) k_client_close
-    | CeDestroy => andthen (andthen (s_timer (s_period k false) false, [KDestroy]) k_client_close) (fun k1 => (s_alive k1 false, []))
+    | CeClose => andthen (s_timer (s_period k false) false, [KAppClose]) (k_client_close false)
+    | CeDestroy => andthen (andthen (s_timer (s_period k false) false, [KDestroy]) (k_client_close true)) (fun k1 => (s_alive k1 false, []))
     end.
 
   Definition k_step_dead (k : cl) (e : cevt) : res :=
